@@ -5,7 +5,6 @@ import logging
 import PyKCS11
 import PyKCS11.LowLevel
 
-from kskm.keymaster.common import get_session
 from kskm.misc.hsm import KSKM_P11, get_p11_key
 
 __author__ = "ft"
@@ -29,15 +28,15 @@ def key_delete(label: str, p11modules: KSKM_P11, force: bool = False) -> bool:
             return True
 
     logger.info(f"Deleting key pair {existing_key}")
-    session = get_session(p11modules, logger)
+    # Object handles are only meaningful in the session (slot) the key was found in
     if existing_key.public_key and existing_key.pubkey_handle:
-        _destroy_object(session, existing_key.pubkey_handle)
+        _destroy_object(existing_key.session, existing_key.pubkey_handle)
         logger.debug("Public key C_DestroyObject executed")
 
     # Handles seem to get invalidated when calling destroyObject, so do another search for a private key
     existing_key = get_p11_key(label, p11modules, public=False)
     if existing_key and existing_key.privkey_handle:
-        _destroy_object(session, existing_key.privkey_handle)
+        _destroy_object(existing_key.session, existing_key.privkey_handle)
         logger.debug("Private key C_DestroyObject executed")
         return True
     return False
